@@ -1,6 +1,8 @@
 //! C09 — half-open lets through at most the permitted trial calls (engine A).
 
-use crate::handle::{build, Cb, CbCfg, TransitionLog};
+use crate::handle::{build_nested, Cb, CbCfg, TransitionLog};
+use std::sync::Arc;
+use trv_core::nest::Nest;
 use tower_resilience_circuitbreaker::CircuitState;
 use trv_core::inner::{Out, Req};
 use trv_core::svcx::{self, Action, Counts, Scenario, Viol};
@@ -18,9 +20,13 @@ pub struct C09 {
     /// admitted in a first half-open period, one failed (breaker re-opened, wait elapsed
     /// again), the other is still running and may be cancelled at any point
     pub straggler: bool,
+    /// emulated lock contention: up to this many times the explorer arms a caller to be polled
+    /// from inside another caller's critical section (see trv_core::nest)
+    pub nested: usize,
 }
 
 pub struct X {
+    nest: Option<Arc<Nest>>,
     svc: Box<dyn Cb>,
     tl: TransitionLog,
     pre_trials_full: bool,
@@ -55,18 +61,19 @@ impl Scenario for C09 {
         "C09"
     }
     fn label(&self) -> String {
-        format!("c09 {} callers={} prepared={}{}", self.cfg.label(), self.callers, self.prepared, if self.straggler { " straggler-from-earlier-half-open-period" } else { "" })
+        format!("c09 {} callers={} prepared={}{}", self.cfg.label(), self.callers, self.prepared, if self.straggler { " straggler-from-earlier-half-open-period" } else if self.nested > 0 { " nested-polls" } else { "" })
     }
     fn callers(&self) -> usize {
         self.callers
     }
     fn init(&self, w: &mut World) -> X {
-        let (svc, tl) = build(&self.cfg, w.inner.clone(), w.origin);
+        let nest = if self.nested > 0 { Some(Nest::new()) } else { None };
+        let (svc, tl) = build_nested(&self.cfg, w.inner.clone(), w.origin, nest.clone());
         if self.prepared {
             w.block_on(svc.force_open());
             w.advance(self.cfg.wait_ms);
         }
-        let mut x = X { svc, tl, pre_trials_full: false, pre_had_inner: false, saw_reject_beyond: false };
+        let mut x = X { nest, svc, tl, pre_trials_full: false, pre_had_inner: false, saw_reject_beyond: false };
         if self.straggler {
             // first half-open period: callers 0 and 1 become trial calls, 0 fails
             self.arrive(w, &mut x, 0, 0);
@@ -83,7 +90,23 @@ impl Scenario for C09 {
         let mut h = x.svc.clone_box();
         let req = Req::new(c as u32, 0);
         let fut = h.start_call(req.clone());
+        let fut = match &x.nest {
+            Some(n) => n.wrap(c, fut, w.callers[c].flag.clone()),
+            None => fut,
+        };
         w.set_arrived(c, req, fut);
+    }
+    fn ctl_actions(&self, w: &World, x: &X) -> Vec<u8> {
+        // arm caller j: the next listener firing inside someone else's critical section polls it
+        match &x.nest {
+            Some(n) if n.armed().is_none() => (0..w.callers.len().min(self.callers)).filter(|&j| w.pollable(j)).map(|j| j as u8).collect(),
+            _ => vec![],
+        }
+    }
+    fn apply_ctl(&self, _w: &mut World, x: &mut X, ctl: u8) {
+        if let Some(n) = &x.nest {
+            n.arm(ctl as usize);
+        }
     }
     fn outs(&self) -> Vec<Out> {
         vec![Out::Ok, Out::Err(0)]
@@ -93,18 +116,38 @@ impl Scenario for C09 {
         match a {
             Action::Tick => c.ticks < self.max_ticks,
             Action::Drop(_) => c.drops < self.max_drops,
+            Action::Ctl(_) => c.ctls < self.nested,
             _ => true,
         }
     }
     fn fingerprint(&self, w: &World, x: &X) -> String {
+        let (trials, _) = self.current_period(w, x);
+        if let Some(n) = &x.nest {
+            // metrics() awaits the circuit lock, which a caller queued by a nested poll may own
+            // (fair hand-over) until it is polled again: only lock-free views here. The window
+            // contents are determined by the outcomes of the finished calls, which the core
+            // fingerprint lists in order.
+            return format!("{:?}/{}/{:?}/{:?}", x.svc.state_sync(), trials, n.armed(), n.fired());
+        }
         let m = w.block_on(x.svc.metrics());
         let tsc = if m.state == CircuitState::Open { m.time_since_state_change.as_millis() as i64 } else { -1 };
-        let (trials, _) = self.current_period(w, x);
-        format!("{:?}/{}/{}/{}/{}/{}/{}", m.state, m.total_calls, m.failure_count, m.success_count, m.slow_call_count, tsc, trials)
+        let armed = x.nest.as_ref().map(|n| (n.armed(), n.fired()));
+        format!("{:?}/{}/{}/{}/{}/{}/{}/{:?}", m.state, m.total_calls, m.failure_count, m.success_count, m.slow_call_count, tsc, trials, armed)
     }
     fn before(&self, w: &World, x: &mut X, a: &Action) {
         let (trials, half) = self.current_period(w, x);
         x.pre_trials_full = half && trials >= self.cfg.permitted;
+        // A caller queued on the circuit lock by a nested poll owns the lock from the moment it
+        // is handed over until it is polled again (its thread would run on at once; here the
+        // explorer may poll somebody else first, who then has to queue behind it): "rejected at
+        // once" is only judged for polls that find nobody else waiting to be polled.
+        if x.nest.is_some() {
+            if let Action::Poll(c) = a {
+                if (0..w.callers.len()).any(|o| o != *c as usize && w.callers[o].polls > 0 && w.needs_poll(o)) || x.nest.as_ref().map_or(false, |n| n.fired().iter().any(|(j, _)| w.callers[*j].is_live() && w.needs_poll(*j) && *j != *c as usize)) {
+                    x.pre_trials_full = false;
+                }
+            }
+        }
         x.pre_had_inner = match a {
             Action::Poll(c) => has_inner(w, *c as usize),
             _ => false,
@@ -175,6 +218,9 @@ impl Scenario for C09 {
             if has_inner(w, *c as usize) && half {
                 v.push("trial_call_cancelled");
             }
+        }
+        if x.nest.as_ref().map_or(false, |n| !n.fired().is_empty()) {
+            v.push("caller_polled_inside_another_callers_critical_section");
         }
         v
     }
